@@ -304,25 +304,39 @@ def gen_factors_float(rng, s, t, n):
             continue
         seen.add((a, d))
         out.append((a, d))
-    head, tail = out[:3], out[3:]
+    head = directed_factors(rng)
+    tail = [f for f in out if f not in head]
     rng.shuffle(tail)
-    return (head + tail)[:n]
+    return (head + tail)[:max(n, len(head))]
+
+
+SMALL_MUL = [(2, 1), (3, 1), (7, 1), (10, 1)]
+SMALL_DIV = [(1, 2), (1, 3), (1, 7), (1, 10)]
+SMALL_RAT = [(3, 2), (2, 3), (5, 3), (3, 5), (7, 4), (5, 9), (9, 5)]
+
+
+def directed_factors(rng):
+    """Every rep pair gets, in every run, the identity and one small factor of each ApplyAs category (integer multiply,
+    integer divide, rational), small enough that 8-bit sources keep checker-cleared values."""
+    return [(1, 1), rng.choice(SMALL_MUL), rng.choice(SMALL_DIV), rng.choice(SMALL_RAT)]
 
 
 def gen_instances(rng, tier):
-    per_ii = 5 if tier == "quick" else 14
-    per_f = 4 if tier == "quick" else 10
+    per_ii = 6 if tier == "quick" else 14
+    per_f = 5 if tier == "quick" else 10
     inst = []
     for s in ALL:
         for t in ALL:
             c = common(s, t)
             if is_int(c):
-                fs = [(1, 1)] + [f for f in intconv.gen_factors(rng, c, 60) if f != (1, 1)]
-                # guard-directed factors of the common type first (gen_factors puts its must-list first): take
-                # a random subset of them plus random ones
+                # directed: identity + one small factor per category; then guard-directed factors of the common type
+                # (gen_factors puts its must-list first) and random ones
+                direct = directed_factors(rng)
+                fs = [f for f in intconv.gen_factors(rng, c, 60) if f not in direct]
                 head, tail = fs[:40], fs[40:]
-                pick = [fs[0]] + rng.sample(head[1:], min(len(head) - 1, per_ii - 2)) + rng.sample(tail, min(len(tail), 1))
-                fs = pick[:per_ii]
+                k = per_ii - len(direct)
+                pick = direct + rng.sample(head, min(len(head), max(k - 1, 1))) + rng.sample(tail, min(len(tail), 1 if k > 1 else 0))
+                fs = pick[:max(per_ii, len(direct))]
             else:
                 fs = gen_factors_float(rng, s, t, per_f)
             for (n, d) in fs:
@@ -414,6 +428,7 @@ def float_points(rng, ins, count):
         else:
             b = rng.randrange(1, 40)
             pts.append(rne(s, Fraction(rng.randrange(-(1 << b), 1 << b), 1 << rng.randrange(0, 8))))
+    pts += [Fraction(k) for k in (1, -1, 2, -2, 3, d, -d, n, 2 * d, -3 * d)]
     out, seen = [], set()
     for v in pts:
         if not isinstance(v, str) and not representable(s, v):
@@ -421,7 +436,17 @@ def float_points(rng, ins, count):
         if v not in seen:
             seen.add(v)
             out.append(v)
+    out.append(NEG_ZERO)
     return out
+
+
+class NegZero(Fraction):
+    """-0.0: the value 0 (all arithmetic and comparisons are those of Fraction(0)); sent to the harness as -0x0p0."""
+    def __new__(cls):
+        return super().__new__(cls, 0)
+
+
+NEG_ZERO = NegZero()
 
 
 # ------------------------------------------------------------------------------------------------
@@ -442,10 +467,11 @@ HARNESS_COMMON = r'''
 #include "au/magnitude.hh"
 typedef __int128 i128;
 struct VBase : au::UnitImpl<au::Length> {};
+struct VTwin : au::UnitImpl<au::Length> {};      // quantity-equivalent to VBase, but a different type
 extern volatile long g_ub; extern volatile long g_uwrap;
 struct In { i128 i; long double f; };
 struct Out {
-    int ovf, tr, lossy; long ub_chk;
+    int ovf, tr, lossy; long ub_chk; int chk_agree;
     int has_val; i128 vi; long double vf; long ub_val; int val_agree;
     int has_mid; long double mid;
 };
@@ -474,9 +500,23 @@ template <class C, class Q, class Target, bool CFloat> struct Mid { static void 
 template <class C, class Q, class Target> struct Mid<C, Q, Target, true> {
     static void get(Q q, Out& o) { o.has_mid = 1; o.mid = static_cast<long double>(q.template coerce_in<C>(Target{})); }
 };
-template <class T, class Q, bool Identity> struct RepCast { static bool agree(Q, T) { return true; } };
+// Factor 1: rep_cast<T>, and the same conversion / checkers addressed through an equivalent but differently typed unit.
+template <class T, class Q, bool Identity> struct RepCast {
+    static bool agree(Q, T) { return true; }
+    static bool chk_agree(Q, int, int, int) { return true; }
+};
 template <class T, class Q> struct RepCast<T, Q, true> {
-    static bool agree(Q q, T v) { return same_val<T>(au::rep_cast<T>(q).in(VBase{}), v); }
+    static bool agree(Q q, T v) {
+        constexpr bool types_ok = std::is_same<decltype(au::rep_cast<T>(q)), au::Quantity<VBase, T>>::value &&
+                                  std::is_same<decltype(au::rep_cast<T>(au::ZERO)), au::Zero>::value;
+        return types_ok && same_val<T>(au::rep_cast<T>(q).in(VBase{}), v) && same_val<T>(q.template in<T>(VTwin{}), v) &&
+               same_val<T>(q.template coerce_in<T>(VTwin{}), v) && same_val<T>(q.template as<T>(VTwin{}).in(VTwin{}), v) &&
+               same_val<T>(q.template coerce_as<T>(au::QuantityMaker<VTwin>{}).in(VBase{}), v);
+    }
+    static bool chk_agree(Q q, int tr, int ovf, int lossy) {
+        return au::will_conversion_truncate<T>(q, VTwin{}) == bool(tr) && au::will_conversion_overflow<T>(q, VTwin{}) == bool(ovf) &&
+               au::is_conversion_lossy<T>(q, VTwin{}) == bool(lossy);
+    }
 };
 
 template <class S, class T, class NumMag, class DenMag, bool Identity, bool IntDiv>
@@ -492,6 +532,10 @@ struct Inst {
         o.ovf = au::will_conversion_overflow<T>(q, Target{});
         o.lossy = au::is_conversion_lossy<T>(q, Target{});
         o.ub_chk = g_ub - u0;
+        // the same questions with a QuantityMaker in the unit slot (and, for the factor 1, an equivalent unit of another type)
+        au::QuantityMaker<Target> mk_slot{};
+        o.chk_agree = au::will_conversion_truncate<T>(q, mk_slot) == bool(o.tr) && au::will_conversion_overflow<T>(q, mk_slot) == bool(o.ovf) &&
+                      au::is_conversion_lossy<T>(q, mk_slot) == bool(o.lossy) && RepCast<T, Q, Identity>::chk_agree(q, o.tr, o.ovf, o.lossy);
     }
     static void conv(const In& in, Out& o) {
         Q q = mk(in);
@@ -501,7 +545,18 @@ struct Inst {
         T v2 = q.template as<T>(Target{}).in(Target{});
         T v3 = q.template coerce_as<T>(Target{}).in(Target{});
         T v4 = q.template in<T>(Target{});
-        o.val_agree = same_val<T>(v, v2) && same_val<T>(v, v3) && same_val<T>(v, v4) && RepCast<T, Q, Identity>::agree(q, v);
+        au::QuantityMaker<Target> mk_slot{};
+        T v5 = q.template coerce_in<T>(mk_slot);
+        T v6 = q.template as<T>(mk_slot).in(mk_slot);
+        // result types: the explicit rep is the rep of the result, the target unit its unit
+        constexpr bool types_ok =
+            std::is_same<decltype(q.template as<T>(Target{})), au::Quantity<Target, T>>::value &&
+            std::is_same<decltype(q.template coerce_as<T>(Target{})), au::Quantity<Target, T>>::value &&
+            std::is_same<decltype(q.template as<T>(mk_slot)), au::Quantity<Target, T>>::value &&
+            std::is_same<decltype(q.template in<T>(Target{})), T>::value &&
+            std::is_same<decltype(q.template coerce_in<T>(Target{})), T>::value;
+        o.val_agree = types_ok && same_val<T>(v, v2) && same_val<T>(v, v3) && same_val<T>(v, v4) && same_val<T>(v, v5) && same_val<T>(v, v6) &&
+                      RepCast<T, Q, Identity>::agree(q, v);
         o.has_val = 1;
         out_set<T>(o, v, std::is_integral<T>{});
     }
@@ -588,8 +643,21 @@ static i128 hi_of(int bits, int sg) { return sg ? ((i128)1 << (bits - 1)) - 1 : 
 // The checkers run in a forked child, the conversions in the parent: UBSan reports a source location only
 // once per process, and the <T> checkers themselves overflow on some inputs (see the observation note at the top of tools/p_c05.py); a report raised
 // inside a checker must not mask a later report inside a checker-cleared conversion.
-struct Flags { unsigned char ovf, tr, lossy, ub; };
+struct Flags { unsigned char ovf, tr, lossy, ub, agree, trap; };
 static Flags* g_shared = nullptr; static const size_t SHARED_N = 70000;
+// Traps (SIGFPE, SIGILL, SIGSEGV, SIGBUS, SIGABRT) inside the code under test are caught per input and named.
+#include <csetjmp>
+#include <csignal>
+#include <sys/resource.h>
+static sigjmp_buf g_jb; static volatile sig_atomic_t g_armed = 0;
+static void on_trap(int sig) { if (g_armed) { g_armed = 0; siglongjmp(g_jb, sig); } signal(sig, SIG_DFL); raise(sig); }
+static void install_traps() {
+    struct sigaction sa; memset(&sa, 0, sizeof sa); sa.sa_handler = on_trap; sigemptyset(&sa.sa_mask); sa.sa_flags = SA_NODEFER;
+    int sigs[] = {SIGFPE, SIGILL, SIGSEGV, SIGBUS, SIGABRT};
+    for (int sg : sigs) sigaction(sg, &sa, nullptr);
+    struct rlimit rl; rl.rlim_cur = 3600; rl.rlim_max = 3700; setrlimit(RLIMIT_CPU, &rl);      // CPU-time watchdog
+}
+#define GUARDED(trapvar, stmt) do { int sg_ = sigsetjmp(g_jb, 1); if (sg_ == 0) { g_armed = 1; stmt; g_armed = 0; trapvar = 0; } else { trapvar = sg_; } } while (0)
 template <class GetIn>
 static bool run_checks(const Entry* e, long count, GetIn get) {
     fflush(stdout);
@@ -598,8 +666,10 @@ static bool run_checks(const Entry* e, long count, GetIn get) {
     if (pid == 0) {
         for (long k = 0; k < count; ++k) {
             In in = get(k); Out o; memset(&o, 0, sizeof o);
-            e->check(in, o);
+            int trap = 0;
+            GUARDED(trap, e->check(in, o));
             g_shared[k].ovf = o.ovf; g_shared[k].tr = o.tr; g_shared[k].lossy = o.lossy; g_shared[k].ub = o.ub_chk ? 1 : 0;
+            g_shared[k].agree = trap ? 1 : o.chk_agree; g_shared[k].trap = (unsigned char)trap;
         }
         _exit(0);
     }
@@ -607,6 +677,7 @@ static bool run_checks(const Entry* e, long count, GetIn get) {
     return WIFEXITED(st) && WEXITSTATUS(st) == 0;
 }
 int main() {
+    install_traps();
     g_shared = (Flags*)mmap(nullptr, SHARED_N * sizeof(Flags), PROT_READ | PROT_WRITE, MAP_SHARED | MAP_ANONYMOUS, -1, 0);
     static char line[1024];
     while (fgets(line, sizeof line, stdin)) {
@@ -628,11 +699,13 @@ int main() {
                 if (!okc) { printf("P %s %s crashed\n", a[1], txt[k].c_str()); continue; }
                 Flags fl = g_shared[k];
                 Out o; memset(&o, 0, sizeof o);
-                e->mid(ins[k], o);
+                int trap_m = 0, trap_v = 0;
+                GUARDED(trap_m, e->mid(ins[k], o));
                 std::string v = "-";
-                if (!fl.lossy) { e->conv(ins[k], o); v = val_str(e->t_int, o); }
-                printf("P %s %s ovf=%d trunc=%d lossy=%d ubc=%d val=%s agree=%d ubv=%ld mid=%s\n", a[1], txt[k].c_str(), fl.ovf, fl.tr, fl.lossy, fl.ub,
-                       v.c_str(), o.has_val ? o.val_agree : 1, o.ub_val, o.has_mid ? sld(o.mid).c_str() : "-");
+                if (!fl.lossy && !fl.trap) { GUARDED(trap_v, e->conv(ins[k], o)); v = trap_v ? "trap" : val_str(e->t_int, o); }
+                printf("P %s %s ovf=%d trunc=%d lossy=%d ubc=%d val=%s agree=%d ubv=%ld mid=%s cagree=%d trapc=%d trapv=%d\n", a[1], txt[k].c_str(),
+                       fl.ovf, fl.tr, fl.lossy, fl.ub, v.c_str(), o.has_val ? o.val_agree : 1, o.ub_val,
+                       (o.has_mid && !trap_m) ? sld(o.mid).c_str() : "-", fl.agree, fl.trap, trap_v ? trap_v : trap_m);
             }
         } else if (a[0][0] == 'G') {
             const Entry* e = find(atoi(a[1])); if (!e) { puts("bad"); fflush(stdout); continue; }
@@ -644,9 +717,10 @@ int main() {
             bool s_int = a[1][0] != 'f', t_int = a[2][0] != 'f';
             In in; parse_in(s_int, a[3], in);
             Out o; memset(&o, 0, sizeof o);
-            ce->f(in, o);
-            printf("K %s %s %s ovf=%d trunc=%d ubc=%ld val=%s ubv=%ld\n", a[1], a[2], a[3], o.ovf, o.tr, o.ub_chk,
-                   o.has_val ? val_str(t_int, o).c_str() : "-", o.ub_val);
+            int trap = 0;
+            GUARDED(trap, ce->f(in, o));
+            printf("K %s %s %s ovf=%d trunc=%d ubc=%ld val=%s ubv=%ld trap=%d\n", a[1], a[2], a[3], o.ovf, o.tr, o.ub_chk,
+                   (o.has_val && !trap) ? val_str(t_int, o).c_str() : "-", o.ub_val, trap);
         } else if (a[0][0] == 'S' && n >= 8) {
             // S id N D cbits csigned tbits tsigned      (integral S of <= 16 bits, integral T; C = common type)
             const Entry* e = find(atoi(a[1])); if (!e || !e->s_int || !e->t_int || e->s_bits > 16) { puts("bad"); fflush(stdout); continue; }
@@ -659,8 +733,8 @@ int main() {
             if (!run_checks(e, total, [&](long k) { In in; in.i = slo + k; in.f = 0; return in; })) { printf("S %s crashed\n", a[1]); fflush(stdout); continue; }
             unsigned long long h = 14695981039346656037ull;
             long cnt = 0, novf = 0, ntr = 0, nlossy = 0, nub = 0, ncleared = 0;
-            long bad_ovf = 0, bad_clear = 0, bad_lossy = 0, bad_agree = 0, ub_unexplained = 0;
-            std::string f_ovf = "-", f_clear = "-", f_ub = "-", f_chkub = "-";
+            long bad_ovf = 0, bad_clear = 0, bad_lossy = 0, bad_agree = 0, ub_unexplained = 0, clear_ub = 0, ntrap = 0;
+            std::string f_ovf = "-", f_clear = "-", f_ub = "-", f_chkub = "-", f_clearub = "-", f_trap = "-", f_agree = "-";
             for (long k = 0; k < total; ++k) {
                 i128 x = slo + k;
                 ++cnt;
@@ -670,6 +744,8 @@ int main() {
                 i128 y = x * N, q = y / D;
                 bool ok1 = clo <= x && x <= chi, ok2 = plo <= y && y <= phi, ok3 = clo * D <= y && y <= chi * D, ok4 = tlo <= q && q <= thi;
                 bool stages = ok1 && ok2 && ok3 && ok4, exact = (y % D == 0);
+                if (fl.trap) { if (!ntrap++) f_trap = s128(x); }
+                if (!fl.agree) { if (!bad_agree++) f_agree = s128(x); }
                 if (fl.ub) {
                     ++nub; if (f_chkub == "-") f_chkub = s128(x);
                     if (stages || !fl.ovf || !fl.lossy) { if (!ub_unexplained++) f_ub = s128(x); }
@@ -681,15 +757,20 @@ int main() {
                 if (!fl.lossy) {
                     ++ncleared;
                     Out o; memset(&o, 0, sizeof o);
-                    e->conv(in, o);
+                    int trap = 0;
+                    GUARDED(trap, e->conv(in, o));
+                    if (trap) { if (!ntrap++) f_trap = s128(x); }
                     h = fnv_u64(h, (unsigned long long)o.vi);
-                    if (!stages || !exact || o.vi != q || o.ub_val) { if (!bad_clear++) f_clear = s128(x); }
-                    if (!o.val_agree) ++bad_agree;
+                    if (!stages || !exact || o.vi != q || trap) { if (!bad_clear++) f_clear = s128(x); }
+                    if (o.ub_val) { if (!clear_ub++) f_clearub = s128(x); }
+                    if (!trap && !o.val_agree) { if (!bad_agree++) f_agree = s128(x); }
                 }
             }
             printf("S %s n=%ld hash=%llu novf=%ld ntrunc=%ld nlossy=%ld ubseen=%d ncleared=%ld bad_ovf=%ld first_ovf=%s bad_clear=%ld first_clear=%s "
-                   "bad_lossy=%ld bad_agree=%ld ub_unexplained=%ld first_ub=%s firstub=%s nubv=%ld\n", a[1], cnt, h, novf, ntr, nlossy, nub ? 1 : 0, ncleared,
-                   bad_ovf, f_ovf.c_str(), bad_clear, f_clear.c_str(), bad_lossy, bad_agree, ub_unexplained, f_ub.c_str(), f_chkub.c_str(), nub);
+                   "bad_lossy=%ld bad_agree=%ld first_agree=%s ub_unexplained=%ld first_ub=%s firstub=%s nubv=%ld clear_ub=%ld first_clearub=%s ntrap=%ld first_trap=%s\n",
+                   a[1], cnt, h, novf, ntr, nlossy, nub ? 1 : 0, ncleared,
+                   bad_ovf, f_ovf.c_str(), bad_clear, f_clear.c_str(), bad_lossy, bad_agree, f_agree.c_str(), ub_unexplained, f_ub.c_str(), f_chkub.c_str(), nub,
+                   clear_ub, f_clearub.c_str(), ntrap, f_trap.c_str());
         } else if (a[0][0] == 'F' && n >= 5) {
             // F id N D p     (integral S of <= 16 bits, floating T = common type with p significand bits)
             const Entry* e = find(atoi(a[1])); if (!e || !e->s_int || e->t_int || e->s_bits > 16) { puts("bad"); fflush(stdout); continue; }
@@ -707,8 +788,12 @@ int main() {
                 In in; in.i = x; in.f = 0;
                 Out o; memset(&o, 0, sizeof o);
                 if (fl.ub) ++ub;
+                if (fl.trap) { if (!bad_val++) f_val = s128(x); continue; }
+                if (!fl.agree) ++bad_agree;
                 if (fl.ovf || fl.tr || fl.lossy) { if (!flagged++) f_flag = s128(x); continue; }   // |x*N/D| < 2^79: never out of range
-                e->conv(in, o); e->mid(in, o);
+                int trap = 0;
+                GUARDED(trap, (e->conv(in, o), e->mid(in, o)));
+                if (trap) { if (!bad_val++) f_val = s128(x); continue; }
                 if (o.ub_val) ++ub;
                 if (!o.val_agree) ++bad_agree;
                 if (!(o.mid == o.vf)) ++bad_mid;
@@ -865,7 +950,7 @@ def driver_runner(drv):
 # ------------------------------------------------------------------------------------------------
 
 def parse_impl_val(t, s):
-    if s == "-":
+    if s in ("-", "trap"):
         return None
     return int(s) if is_int(t) else parse_hex(s)
 
@@ -887,7 +972,17 @@ def judge(ins, x, r):
     if lossy != (ovf or tr) and ubc == 0:
         out.append(("lossy-or", "is_conversion_lossy<T> is not will_conversion_truncate<T> || will_conversion_overflow<T>", {}))
     if r.get("agree", "1") != "1":
-        out.append(("api-agree", "coerce_in<T>, as<T>, coerce_as<T>, in<T> (and rep_cast<T>) do not return the same value", {}))
+        out.append(("api-agree", "coerce_in<T>, as<T>, coerce_as<T>, in<T> (unit, QuantityMaker and — for the factor 1 — equivalent-unit slots; "
+                    "rep_cast<T>) do not return the same value, or a result does not have the type Quantity<unit, T> / T", {}))
+    if r.get("cagree", "1") != "1":
+        out.append(("api-agree", "the <T> checkers answer differently through a QuantityMaker slot (or, for the factor 1, an equivalent unit of "
+                    "another type) than through the unit", {}))
+    if r.get("trapc", "0") != "0":
+        out.append(("trap", f"a <T> checker traps (signal {r['trapc']})", {"where": "checker"}))
+        return out
+    if r.get("trapv", "0") != "0":
+        out.append(("trap", f"the conversion traps (signal {r['trapv']})", {"where": "conversion"}))
+        return out
     if is_int(s) and is_int(t):
         stages, q, exact = stage_ok_int(ins, x)
         y = x * n
@@ -949,6 +1044,8 @@ def judge(ins, x, r):
 # ------------------------------------------------------------------------------------------------
 
 def x_text_impl(s, x):
+    if isinstance(x, NegZero):
+        return "-0x0p0"
     return str(x) if is_int(s) else to_hex(x)
 
 
@@ -993,6 +1090,7 @@ def cast_points(rng, s, t):
         if v not in seen:
             seen.add(v)
             out.append(v)
+    out.append(NEG_ZERO)
     return out
 
 
@@ -1187,7 +1285,14 @@ def explore(tier, seed, rng, wd, only=None, only_casts=None):
                 s, t, x = rq["S"], rq["T"], rq["x"]
                 a, b = ha[0], ma[0]
                 r, mm = kv(a), kv(b)
+                if compiler != "exact":
+                    stats["nonexact_reports"] = stats.get("nonexact_reports", 0) + int(r["ubc"]) + int(r["ubv"])
+                    r["ubc"] = r["ubv"] = "0"
                 stats["cast_points"] += 1
+                if r.get("trap", "0") != "0":
+                    add_violation({"what": f"static_cast checker / cast traps (signal {r['trap']}) for {s}->{t} at x={x_text_impl(s, x)}", "class": f"trap-{s}-{t}",
+                                   "rec": {"kind": "cast", "S": s, "T": t, "x": x_text_impl(s, x), "config": cfg, "observable": "trap", "impl": a}})
+                    continue
                 base = {"kind": "cast", "S": s, "T": t, "x": x_text_impl(s, x), "config": cfg}
                 same = b not in ("bad-op", "nocompile") and r["ovf"] == mm["ovf"] and r["trunc"] == mm["trunc"] and int(r["ubc"]) == 0
                 if same and r["val"] != "-":
@@ -1232,7 +1337,7 @@ def explore(tier, seed, rng, wd, only=None, only_casts=None):
                 # not required: g++ narrows `(uint16_t)(int * int)` to unsigned arithmetic before instrumenting it.
                 # The exact-count build sees every signed overflow / unsigned wrap inside the checkers: it must coincide
                 # with the model's truncCheckerEvent, value by value (count and first value).
-                evt_bad = (r["ubseen"] == "1" and mm["nevt"] == "0") or \
+                evt_bad = (compiler == "exact" and r["ubseen"] == "1" and mm["nevt"] == "0") or \
                     (compiler == "exact" and (r["nubv"] != mm["nevt"] or r["firstub"] != mm["firstevt"]))
                 if any(r[k] != mm[k] for k in ("n", "hash", "novf", "ntrunc", "nlossy", "ncleared")) or evt_bad:
                     # locate the first differing value
@@ -1258,10 +1363,20 @@ def explore(tier, seed, rng, wd, only=None, only_casts=None):
                 if int(r["bad_clear"]):
                     add_violation({"what": f"not reported lossy but a stage leaves its range / result not exact / UB ({s}->{t} x {n}/{d}, x={r['first_clear']})",
                                    "class": f"cleared-{s}-{t}", "rec": dict(base, kind="oracle", observable="cleared-unsound", x=r["first_clear"], count=int(r["bad_clear"]))})
-                if int(r["bad_lossy"]) or int(r["bad_agree"]):
-                    add_violation({"what": f"lossy != trunc||ovf, or the conversion entry points disagree ({s}->{t} x {n}/{d})", "class": "lossy-or",
+                if int(r["bad_lossy"]):
+                    add_violation({"what": f"is_conversion_lossy<T> is not trunc || ovf ({s}->{t} x {n}/{d})", "class": "lossy-or",
                                    "rec": dict(base, kind="oracle", observable="lossy-or", impl=a)})
-                if int(r["ubseen"]):
+                if int(r["bad_agree"]):
+                    add_violation({"what": f"entry points / unit-slot forms disagree or a result type is wrong ({s}->{t} x {n}/{d}, x={r['first_agree']})",
+                                   "class": f"api-agree-{s}-{t}", "rec": dict(base, kind="oracle", observable="api-agree", x=r["first_agree"], count=int(r["bad_agree"]))})
+                if int(r["ntrap"]):
+                    add_violation({"what": f"a <T> checker or the conversion traps ({s}->{t} x {n}/{d}, x={r['first_trap']})",
+                                   "class": f"trap-{s}-{t}", "rec": dict(base, kind="oracle", observable="trap", x=r["first_trap"], count=int(r["ntrap"]))})
+                if compiler == "exact" and int(r["clear_ub"]):
+                    add_violation({"what": f"not reported lossy, but the conversion executes UB / an unsigned wrap ({s}->{t} x {n}/{d}, x={r['first_clearub']})",
+                                   "class": f"cleared-{s}-{t}", "rec": dict(base, kind="oracle", observable="cleared-unsound", x=r["first_clearub"],
+                                                                         count=int(r["clear_ub"]), ub=1)})
+                if compiler == "exact" and int(r["ubseen"]):
                     add_violation({"what": f"a <T> checker executes UB (sanitizer report inside the checker), first at x={r['firstub']} ({s}->{t} x {n}/{d})",
                                    "class": f"checker-ub-{s}-{t}", "rec": dict(base, kind="oracle", observable="checker-ub-sweep", x=r["firstub"],
                                                                                unexplained=int(r["ub_unexplained"]), first_unexplained=r["first_ub"])})
@@ -1279,12 +1394,15 @@ def explore(tier, seed, rng, wd, only=None, only_casts=None):
                 if int(r["flagged"]):
                     add_violation({"what": f"{s}->{t} x {n}/{d}: a value of an 8/16-bit source is reported lossy although x*N/D is far inside the floating range, x={r['first_flag']}",
                                    "class": f"ovf-unreal-{s}-{t}", "rec": dict(base, kind="oracle", observable="ovf-unreal", x=r["first_flag"])})
-                if int(r["bad_val"]) or int(r["ub"]) or int(r["bad_mid"]) or int(r["bad_agree"]):
+                if int(r["bad_val"]) or (compiler == "exact" and int(r["ub"])) or int(r["bad_mid"]) or int(r["bad_agree"]):
                     add_violation({"what": f"{s}->{t} x {n}/{d}: cleared conversion is not within 4 ulp of x*N/D / UB / entry points disagree, x={r['first_val']}",
                                    "class": f"cleared-{s}-{t}", "rec": dict(base, kind="oracle", observable="cleared-unsound", x=r["first_val"], impl=a)})
             else:
                 for x, a, b in zip(rq["xs"], ha, ma):
                     r, mm = kv(a), kv(b)
+                    if compiler != "exact" and "ubc" in r:      # per-input UB verdicts only from the exact-count build
+                        stats["nonexact_reports"] = stats.get("nonexact_reports", 0) + int(r["ubc"]) + int(r["ubv"])
+                        r["ubc"] = r["ubv"] = "0"
                     xs = x_text_impl(s, x)
                     rec = dict(base, kind="point", x=xs)
                     if "ovf" not in r:
@@ -1458,6 +1576,8 @@ def main(tier, seed):
 
 def _parse_x(s, txt):
     txt = str(txt)
+    if txt == "-0x0p0":
+        return NEG_ZERO
     return int(txt) if is_int(s) else parse_hex(txt)
 
 
